@@ -34,10 +34,15 @@ WRITE_PATH_FILES = ('session.py', 'websocket.py', 'compression.py', 'frame.py', 
 
 
 class Scheduler(object):
-    def __init__(self, plan=None, rnd=None, switch_prob=0.0, files=None, max_steps=200000):
+    def __init__(self, plan=None, rnd=None, switch_prob=0.0, files=None, max_steps=200000, pct=None):
         self.plan = dict(plan or {})      # step -> tid to run (forced choice)
         self.rnd = rnd
         self.switch_prob = switch_prob
+        # PCT (Burckhardt et al.): random thread priorities, d-1 priority change points at random steps;
+        # pct = (expected number of steps k, depth d)
+        self.pct = pct
+        self._prio = None
+        self._change = None
         self.files = files                # None = every lomond file, else tuple of basenames
         self.threads = []
         self.current = None
@@ -92,7 +97,21 @@ class Scheduler(object):
         cur_ok = (not must_leave) and cur in en
         forced = self.plan.get(self.step)
         pick = None
-        if forced is not None and forced in ids:
+        if self.pct is not None and self.rnd is not None:
+            if self._prio is None:
+                k, d = self.pct
+                n = len(self.threads)
+                order = list(range(n))
+                self.rnd.shuffle(order)
+                self._prio = {tid: d + order.index(tid) for tid in range(n)}
+                self._change = {}
+                for j in range(1, d):
+                    self._change[self.rnd.randint(1, max(1, k))] = d - j
+            low = self._change.pop(self.step, None)
+            if low is not None and cur is not None:
+                self._prio[cur.tid] = low
+            pick = max(en, key=lambda t: self._prio[t.tid])
+        elif forced is not None and forced in ids:
             pick = self.threads[forced]
         elif self.rnd is not None and len(en) > 1 and self.rnd.random() < (self.switch_prob if cur_ok else 1.0):
             pick = self.rnd.choice(en)
